@@ -120,9 +120,53 @@ def run_case(sh, s, d, case):
     return (digest(kind, trace) if nt else None, {'seed': s, 'kind': kind, 'trace': trace[:40]})
 
 
+def crafted_dropped_ghosts(sh, case):
+    """fixed regression scenario (fix b9b2e75): new objects stored by savepoints, ghostified and - nobody but another new object
+    referring to them - dropped from the cache; after a rollback past their savepoints the surviving Python objects must still
+    show their state, transitively"""
+    import gc
+    import ZODB
+    import ZODB.MappingStorage
+    import transaction
+    from zv.objs import Cell
+    db = ZODB.DB(ZODB.MappingStorage.MappingStorage(), cache_size=1)
+    tm = transaction.TransactionManager()
+    c = db.open(tm)
+    tm.begin()
+    c.root()['keep'] = Cell('keep')
+    s1 = tm.savepoint()
+    z = Cell('z state')
+    y = Cell('y state')
+    y.refs['z'] = z
+    c.root()['y'] = y
+    tm.savepoint()
+    x = Cell('x state')
+    x.refs['y'] = y
+    c.root()['x'] = x
+    del c.root()['y']
+    tm.savepoint()
+    del y, z
+    for _ in range(2):
+        c.cacheMinimize()
+        gc.collect()
+    s1.rollback()
+    try:
+        got = (x.payload, x.refs['y'].payload, x.refs['y'].refs['z'].payload, x._p_jar, x.refs['y']._p_jar)
+    except Exception as e:
+        got = type(e).__name__
+    sh.count('crafted_dropped_ghost_scenarios')
+    if got != ('x state', 'y state', 'z state', None, None):
+        sh.violation('c12:mapping:disowned-object-lost-its-state:reached-only-through-another-ghostified-new-object', {'got': repr(got)[:160]}, case)
+    tm.abort()
+    c.close()
+    db.close()
+
+
 def run_shard(params):
     logging.disable(logging.CRITICAL)
     sh = Shard(params)
+    if params.get('shard', 0) == 0:
+        guarded(sh, 'c12', {'crafted': 'dropped-ghosts'}, lambda: crafted_dropped_ghosts(sh, {'crafted': 'dropped-ghosts'}))
     for i in case_indices(params):
         if not sh.time_left():
             break
@@ -140,5 +184,8 @@ def run_shard(params):
 def replay(case, scratch):
     logging.disable(logging.CRITICAL)
     sh = Shard({'scratch': scratch})
+    if case.get('crafted') == 'dropped-ghosts':
+        guarded(sh, 'c12', case, lambda: crafted_dropped_ghosts(sh, case))
+        return sh.violations
     guarded(sh, 'c12', case, lambda: run_case(sh, case['seed'], sh.fresh_dir('c12'), case))
     return sh.violations
